@@ -5,6 +5,7 @@
 From Coq Require Import List Arith ZArith Lia Bool.
 Import ListNotations.
 From KDB Require Import Util UtilProofs PropDefs PropFlags PropLink PropLinkBasics PropLinkOps PropLinkTheorems PropSim PropGrow PropSimAct PropSimAct2 PropGrowAct.
+From KDB Require PropLinkMove.
 From KDB Require PropAbs PropAbsProofs PropAbsAct PropAbsAct2 PropProofs PropCheck PropGrowMore PropMove.
 Module A := PropAbs.
 
@@ -480,17 +481,50 @@ Section GrowAct2.
       assert (T' = T) by congruence. subst T'. split; [exact C'|]. split; [exact N'|]. intros p0 lid Hi. rewrite Vr. exact (V' p0 lid Hi).
   Qed.
 
+  (* move construction of ANY property while writing observers exist: the three public signals - with every observer - now belong to the
+     destination, which takes the updater too, so "listens to valueChanged of some property / to valueAboutToChange of an unbound one"
+     survives with the source renamed to the destination *)
+  Lemma grow_movector_b fuel w src dst w' :
+    SCB w -> COH w -> NOEMIT w -> step1 fn rtl fuel w (PMoveCtor src dst) = (w', None) -> SCB w' /\ COH w'.
+  Proof.
+    intros (Hinv & Hna & Hsi) (s & HRel & HInv) HNE H.
+    pose proof (PropLinkMove.movector_pinv fn rtl fuel w src dst w' None Hinv HNE H I) as Hinv'.
+    destruct (PropMove.movector_shape fn rtl fuel w src dst w' Hinv HNE H) as (s0 & dn & sn & Hs & Hd & Hne & Vd & Ud & Vs & Us & PW & Sw & HB & SIG & _).
+    destruct SIG as (Sa & Sc & Sd & _).
+    destruct (PropMove.coh_renamed_core fn w w' s src dst s0 dn sn Hinv Hsi HRel HInv Hinv' Hne Hs) as [Hsi' HC']; auto.
+    { intros b lf Hl Ht. apply (pi_leafx _ _ _ _ _ _ _ Hinv _ _ _ Hl Ht). unfold pview. rewrite Hd. reflexivity. }
+    { intros t pos ser s1 Hsl. apply Sw. exact Hsl. }
+    { intros b _. apply HB. }
+    split; [|exact HC']. split; [exact Hinv'|split; [|exact Hsi']].
+    assert (OW : forall p k t, (k = KChanged \/ k = KAbout) -> owns w p k t -> owns w' (PropMove.rn src dst p) k t).
+    { intros p k t Hk (vv & Ev & Es). unfold owns, pview, PropMove.rn in *. destruct (lookup (w_props w) p) as [pr0|] eqn:Hp0; [|discriminate Ev]. inversion Ev; subst vv.
+      destruct (Nat.eqb_spec p src) as [->|Hps].
+      - rewrite Hs in Hp0. inversion Hp0; subst pr0. rewrite PW, Nat.eqb_refl. eexists. split; [reflexivity|].
+        destruct Hk as [->| ->]; cbn in *; congruence.
+      - assert (Hpd : p <> dst) by (intros ->; congruence). rewrite PW. destruct (Nat.eqb_spec p dst); [contradiction|]. destruct (Nat.eqb_spec p src); [contradiction|].
+        rewrite Hp0. eexists. split; [reflexivity|exact Es]. }
+    assert (UB : forall p, PropSimAct2.unbound w p -> PropSimAct2.unbound w' (PropMove.rn src dst p)).
+    { intros p (vv & Ev & Uv). unfold PropSimAct2.unbound, pview, PropMove.rn in *. destruct (lookup (w_props w) p) as [pr0|] eqn:Hp0; [|discriminate Ev]. inversion Ev; subst vv.
+      destruct (Nat.eqb_spec p src) as [->|Hps].
+      - rewrite Hs in Hp0. inversion Hp0; subst pr0. rewrite PW, Nat.eqb_refl. eexists. split; [reflexivity|]. cbn in *. congruence.
+      - assert (Hpd : p <> dst) by (intros ->; congruence). rewrite PW. destruct (Nat.eqb_spec p dst); [contradiction|]. destruct (Nat.eqb_spec p src); [contradiction|].
+        rewrite Hp0. eexists. split; [reflexivity|exact Uv]. }
+    intros t pos ser label a Hsl. apply Sw in Hsl. destruct (Hna t pos ser label a Hsl) as (tgt & p & Ea & Hor). exists tgt, (PropMove.rn src dst p). split; [exact Ea|].
+    destruct Hor as [Ho|[Ho Hu]]; [left; apply OW; auto|right; split; [apply OW; auto|apply UB; exact Hu]].
+  Qed.
+
   Definition grow_act2_op (w : world) (o : op) : Prop :=
     match o with
     | PNew _ _ => True
     | PBind p _ MImmediate => lookup (w_props w) p = None \/ (unbound_b w p = true /\ nab_b w p = true) \/ bound_b w p = true
     | PReset _ => True
+    | PMoveCtor _ _ => True
     | _ => act2_op w o
     end.
 
-  Theorem grow_act2_step fuel w o w' : SCB w -> COH w -> grow_act2_op w o -> step1 fn rtl fuel w o = (w', None) -> SCB w' /\ COH w'.
+  Theorem grow_act2_step fuel w o w' : SCB w -> COH w -> NOEMIT w -> grow_act2_op w o -> step1 fn rtl fuel w o = (w', None) -> SCB w' /\ COH w'.
   Proof.
-    intros HSC HC Ho H. destruct o; cbn [grow_act2_op] in Ho; try (exact (act2_step fuel w _ w' HSC HC Ho H)).
+    intros HSC HC HNE Ho H. destruct o; cbn [grow_act2_op] in Ho; try (exact (act2_step fuel w _ w' HSC HC Ho H)).
     - (* PNew *) cbn [step1] in H. destruct (lookup (w_props w) p) eqn:Hp; [discriminate H|]. inversion H; subst w'. apply grow_new_b; assumption.
     - (* PBind *) destruct m; [|destruct Ho]. destruct Ho as [Ho|[[Hub Hnb]|Hbd]]; [apply (grow_bind_b fuel w p e w'); assumption| |].
       + unfold unbound_b in Hub. destruct (lookup (w_props w) p) as [pr|] eqn:Hp; [|discriminate Hub]. destruct (pr_updater pr) eqn:Hu; [discriminate Hub|].
@@ -498,6 +532,7 @@ Section GrowAct2.
       + unfold bound_b in Hbd. destruct (lookup (w_props w) p) as [pr|] eqn:Hp; [|discriminate Hbd]. destruct (pr_updater pr) as [old|] eqn:Hu; [|discriminate Hbd].
         apply (grow_rebind_b fuel w p pr old e w' HSC HC Hp Hu H).
     - (* PReset *) apply (grow_reset_b fuel w p w'); assumption.
+    - (* PMoveCtor *) apply (grow_movector_b fuel w src dst w'); assumption.
   Qed.
 
   Fixpoint grow_act2_run_ok (fuel : nat) (w : world) (ops : list op) : Prop :=
@@ -506,13 +541,14 @@ Section GrowAct2.
     | o :: r => grow_act2_op w o /\ snd (step1 fn rtl fuel w o) = None /\ grow_act2_run_ok fuel (step fn rtl fuel w o) r
     end.
 
-  Theorem grow_act2_coherent fuel : forall ops w, SCB w -> COH w -> grow_act2_run_ok fuel w ops ->
+  Theorem grow_act2_coherent fuel : forall ops w, SCB w -> COH w -> NOEMIT w -> grow_act2_run_ok fuel w ops ->
     SCB (fold_left (step fn rtl fuel) ops w) /\ COH (fold_left (step fn rtl fuel) ops w).
   Proof.
-    induction ops as [|o r IH]; intros w HSC HC Hok; cbn [fold_left]; [auto|]. destruct Hok as (Ho & Hn & Hr).
+    induction ops as [|o r IH]; intros w HSC HC HNE Hok; cbn [fold_left]; [auto|]. destruct Hok as (Ho & Hn & Hr).
+    pose proof (step_noemit fn rtl fuel w o HNE) as HNE1.
     unfold step in *. destruct (step1 fn rtl fuel w o) as [w1 e] eqn:E. cbn [snd] in Hn. subst e.
-    destruct (grow_act2_step fuel w o w1 HSC HC Ho E) as [SC1 COH1].
-    apply IH; [apply SCB_log; exact SC1|exact COH1|exact Hr].
+    destruct (grow_act2_step fuel w o w1 HSC HC HNE Ho E) as [SC1 COH1].
+    apply IH; [apply SCB_log; exact SC1|exact COH1|exact HNE1|exact Hr].
   Qed.
 
   (* C02 for networks growing in ANY order with writing observers of both signals *)
@@ -523,7 +559,7 @@ Section GrowAct2.
     PropCheck.den_node fn (values w) (b_root x) = Some z -> pr_value pr = z.
   Proof.
     intros Hok w Hi Hq Hd.
-    destruct (grow_act2_coherent fuel ops world0 (SCA_SCB _ (SC_SCA _ PropGrow.SC_world0)) (PropGrow.COH_world0 fn) Hok) as [HSC HC].
+    destruct (grow_act2_coherent fuel ops world0 (SCA_SCB _ (SC_SCA _ PropGrow.SC_world0)) (PropGrow.COH_world0 fn) PropMove.NOEMIT_world0 Hok) as [HSC HC].
     eapply coherent_bound_equals_expression_act2; eauto.
   Qed.
 End GrowAct2.
